@@ -47,7 +47,8 @@ def _ret_term(repo, fi):
     rets = [n for n in ft.cfg.nodes if n.kind == "return" and n.stmt.value is not None]
     if len(rets) != 1:
         return ft, None
-    return ft, uncont(ft.term(rets[0].stmt.value, rets[0].id))
+    from ..terms import norm_concat
+    return ft, norm_concat(uncont(ft.term(rets[0].stmt.value, rets[0].id)))
 
 
 def _cipher_ok(t, key_param, iv_term):
@@ -74,9 +75,12 @@ def check(repo):
     parts = []
 
     def chain(t):
+        # concatenation, also when it was collected in a bytearray and handed out as bytes(...)
         if t[0] == "binop" and t[1] == "Add":
             chain(t[2])
             chain(t[3])
+        elif t[0] == "call" and t[1] in ("bytes", "bytearray") and len(t[2]) == 1 and not t[3]:
+            chain(t[2][0])
         else:
             parts.append(t)
     chain(te)
